@@ -89,7 +89,7 @@ def gen_sender(ctx, i):
             ops.append(f"msg,{wsgen.hx(pl)},1,{rng.choice(['n', 'n', 100, 1000])},0")
     big = (i % 25 == 0) if ctx.tier == "quick" else (i % 8 == 0)
     if big:
-        n = rng.choice(wsgen.BIG_LENS + ([1 << 20, (1 << 23) + 1] if ctx.tier == "thorough" and i % 64 == 0 else [])   # 8 MiB: the compiled driver overflows its stack on a single 16 MiB message)
+        n = rng.choice(wsgen.BIG_LENS + ([1 << 20] if ctx.tier == "thorough" and i % 128 == 0 else []))   # 1 MiB at most (cost of the pure-Python receivers and of the list-based model)
         b = rng.randrange(2)
         pl = rng.randbytes(n) if b else ("ab" * (n // 2 + 1))[:n].encode()
         frag = rng.choice(["n", "n", 65535, 65536, 4096, n - 1, n, n + 1])
